@@ -18,7 +18,7 @@ PROPERTY LookupNested
 CHECK_DEADLOCK FALSE
 """
 
-THEOREMS = ["T_Level1", "T_Level1Inc", "T_Div4", "T_Single", "T_Gen", "T_Sub", "T_Partition", "T_Nest", "T_DefLocal", "T_Fold", "T_LookupCentre"]
+THEOREMS = ["T_Level1", "T_Level1Inc", "T_Div4", "T_Single", "T_Gen", "T_Sub", "T_Partition", "T_Nest", "T_DefLocal", "T_Fold", "T_LookupCentre", "T_AdmIsHolds"]
 
 
 def mc_module(emit):
@@ -28,7 +28,7 @@ def mc_module(emit):
         "AnchorPts == {<<H, H>>, <<0, 0>>, <<S, 0>>, <<0, S>>, <<S, S>>, <<S, H>>, <<H, 0>>, <<0, H>>, <<H, S>>}",
         "AnchorTable == LET aseq == SetToSeq(AnchorPts) IN [i \\in DOMAIN aseq |-> [p |-> <<aseq[i][1] \\div H, aseq[i][2] \\div H>>, sky |-> Anchor(aseq[i], FALSE), planet |-> Anchor(aseq[i], TRUE)]]",
         "TileTable == LET g == Gen(MaxDepth) IN [i \\in DOMAIN g |-> LET t == g[i] IN [pos |-> t.pos, c |-> <<t.c[1].pt, t.c[2].pt, t.c[3].pt, t.c[4].pt>>, inc |-> t.inc]]",
-        "SubPos == UNION {Positions(n) : n \\in 1..(R - K - 1)} \\cap AllPos",
+        "SubPos == {p \\in AllPos : p[1] + K + 1 <= R}",
         "SubTable == LET ss == SetToSeq(SubPos) IN [i \\in DOMAIN ss |-> LET t == TileAt(ss[i]) g == Sub(t.c[1], t.c[2], t.c[3], t.c[4], t.inc, K) IN"
         "   [pos |-> ss[i], grid |-> [r \\in 1..(2^K) |-> [c \\in 1..(2^K) |-> g[<<r - 1, c - 1>>].pt]]]]",
         ("AdmTable == LET ps == SetToSeq(Lattice) IN [i \\in DOMAIN ps |-> [p |-> ps[i], adm |-> [d \\in 1..MaxDepth |-> SetToSeq(Admissible(ps[i], d))]]]"
